@@ -387,6 +387,12 @@ func ReadFromTTML(i io.Reader) (o *Subtitles, err error) {
 
 	// Loop through subtitles
 	for _, ts := range ttml.Subtitles {
+		// Time boundaries are mandatory
+		if ts.Begin == nil || ts.End == nil {
+			err = fmt.Errorf("astisub: subtitle %s has no begin or no end attribute", ts.ID)
+			return
+		}
+
 		// Init item
 		ts.Begin.framerate = ttml.Framerate
 		ts.Begin.tickrate = ttml.Tickrate
